@@ -62,7 +62,7 @@ var c41Keys = []c41Key{
 	{c41ST + ".calcConsensusParamsKey", []string{c41ST + ".saveConsensusParamsInfo"}, []string{c41ST + ".loadConsensusParamsInfo"}, false},
 	{c41ST + ".CalcABCIResponsesKey", []string{c41ST + ".SaveABCIResponses"}, []string{c41ST + ".LoadABCIResponses"}, false},
 	{c41ST + ".CalcTxResultKey", []string{c41ST + ".saveTxResultIndex"}, []string{c41ST + ".LoadTxResultIndex"}, false},
-	{c41ST + ".stateKey", []string{c41ST + ".saveState"}, []string{c41ST + ".loadState"}, true},
+	{c41ST + ".stateKey", []string{c41ST + ".SaveState"}, []string{c41ST + ".LoadState"}, true},
 }
 
 type c41Use struct {
@@ -107,61 +107,80 @@ func c41KeyTable(c *engine.Ctx, p *engine.Prog) map[string]map[string][]c41Use {
 		}
 		target := obj
 		var writers, readers, others []string
-		scan := func(match func(f *engine.Fn, e ast.Expr) bool) {
-			for _, f := range append(p.FuncsIn(c41BS), p.FuncsIn(c41ST)...) {
-				info := f.Info()
-				for _, s := range f.Calls() {
-					nm := s.CalleeName()
-					if !strings.HasPrefix(nm, c41DBI) || len(s.Call.Args) == 0 {
-						continue
+		all := append(p.FuncsIn(c41BS), p.FuncsIn(c41ST)...)
+		// attrib: the functions on whose behalf the key expression e of f names this builder:
+		// f itself when e derives from the builder inside f, else — when e is a parameter of an
+		// unexported helper — the callers that pass such a key (followed transitively).
+		var attrib func(f *engine.Fn, e ast.Expr, depth int) []string
+		attrib = func(f *engine.Fn, e ast.Expr, depth int) []string {
+			if sfDerives(f, e, isKey(f.Info()), 2) {
+				return []string{f.Root().Name}
+			}
+			if depth <= 0 || f.Obj == nil || f.Obj.Exported() {
+				return nil
+			}
+			pi := -1
+			x := ast.Unparen(e)
+			for i := 0; i < 4; i++ {
+				id, ok := x.(*ast.Ident)
+				if !ok {
+					break
+				}
+				o := f.Info().ObjectOf(id)
+				if k := sfParamIdx(f, o); k >= 0 {
+					pi = k
+					break
+				}
+				d := sfSingleDef(f, o)
+				if d == nil {
+					break
+				}
+				x = ast.Unparen(d)
+			}
+			if pi < 0 {
+				return nil
+			}
+			var out []string
+			for _, g := range all {
+				for _, s := range g.Calls() {
+					if fn, ok := s.Callee.(*types.Func); ok && fn.Origin() == f.Obj.Origin() && pi < len(s.Call.Args) {
+						out = append(out, attrib(g, s.Call.Args[pi], depth-1)...)
 					}
-					if !match(f, s.Call.Args[0]) {
-						continue
-					}
-					u := c41Use{fn: f, call: s.Call, key: s.Call.Args[0]}
-					switch strings.TrimPrefix(nm, c41DBI) {
-					case "Set", "SetSync":
-						writers = append(writers, f.Root().Name)
-						out[k.builder]["w"] = append(out[k.builder]["w"], u)
-					case "Get", "Has":
-						readers = append(readers, f.Root().Name)
-						out[k.builder]["r"] = append(out[k.builder]["r"], u)
-					default:
-						others = append(others, f.Root().Name+":"+nm)
-					}
-					_ = info
+				}
+			}
+			return out
+		}
+		for _, f := range all {
+			for _, s := range f.Calls() {
+				nm := s.CalleeName()
+				if !strings.HasPrefix(nm, c41DBI) || len(s.Call.Args) == 0 {
+					continue
+				}
+				who := attrib(f, s.Call.Args[0], 3)
+				if len(who) == 0 {
+					continue
+				}
+				u := c41Use{fn: f, call: s.Call, key: s.Call.Args[0]}
+				switch strings.TrimPrefix(nm, c41DBI) {
+				case "Set", "SetSync":
+					writers = append(writers, who...)
+					out[k.builder]["w"] = append(out[k.builder]["w"], u)
+				case "Get", "Has":
+					readers = append(readers, who...)
+					out[k.builder]["r"] = append(out[k.builder]["r"], u)
+				default:
+					others = append(others, f.Root().Name+":"+nm)
 				}
 			}
 		}
-		if !k.viaParam {
-			scan(func(f *engine.Fn, e ast.Expr) bool { return sfDerives(f, e, isKey(f.Info()), 2) })
-			// every other reference to the builder must be one of those call sites (no stray use)
-			refs := engine.CallerSet(p.RefsTo(func(o types.Object) bool { return o == target }))
-			extra := sfWritersOK(p, refs, append(append([]string{}, k.writers...), k.readers...))
-			if strings.HasSuffix(k.builder, "CalcABCIResponsesKey") || strings.HasSuffix(k.builder, "CalcTxResultKey") {
-				extra = nil // exported builders are also used by other packages for reads
-			}
-			n++
-			c.Check("key-namespace", k.builder+" used only by its save/load pair", token.NoPos, len(extra) == 0, "other users: "+join(extra))
-		} else {
-			// the var is handed to helpers taking the key as a parameter: saveState(db, state, key) / loadState(db, key)
-			refs := p.RefsTo(func(o types.Object) bool { return o == target })
-			okRefs := len(refs) == 2
-			for _, r := range refs {
-				if r.Fn == nil || (r.Fn.Name != c41ST+".SaveState" && r.Fn.Name != c41ST+".LoadState") {
-					okRefs = false
-				}
-			}
-			n++
-			c.Check("key-namespace", k.builder+" referenced only by SaveState/LoadState", token.NoPos, okRefs, "")
-			scan(func(f *engine.Fn, e ast.Expr) bool {
-				if f.Name != c41ST+".saveState" && f.Name != c41ST+".loadState" {
-					return false
-				}
-				id, ok := ast.Unparen(e).(*ast.Ident)
-				return ok && id.Name == "key" && f.Info().ObjectOf(id) != nil
-			})
+		// every other reference to the builder must be one of those functions (no stray use)
+		refs := engine.CallerSet(p.RefsTo(func(o types.Object) bool { return o == target }))
+		extra := sfWritersOK(p, refs, append(append([]string{}, k.writers...), k.readers...))
+		if strings.HasSuffix(k.builder, "CalcABCIResponsesKey") || strings.HasSuffix(k.builder, "CalcTxResultKey") {
+			extra = nil // exported builders are also used by other packages for reads
 		}
+		n++
+		c.Check("key-namespace", k.builder+" used only by its save/load pair", token.NoPos, len(extra) == 0, "other users: "+join(extra))
 		n++
 		c.Check("key-namespace", k.builder+" writers", token.NoPos, len(writers) >= 1 && len(sfWritersOK(p, c22Uniq(sfSorted(writers...)), k.writers)) == 0 && len(others) == 0,
 			"functions writing under this key: "+join(c22Uniq(sfSorted(writers...)))+"; expected "+join(k.writers))
@@ -479,21 +498,43 @@ func c41HeightArgs(c *engine.Ctx, p *engine.Prog) {
 			c.Check("height-arg", f.Name+" key (height,index), value part", s.Pos(), ok, "")
 		}
 	}
+	// keyUnderParams: the key handed to the db call is <some calc…Key builder>(p_first, p_first+1, …) of the root function's parameters
+	keyUnderParams := func(d sfDS, first int) bool {
+		stopB := func(cx *sfCtx, cl *ast.CallExpr) bool {
+			nm := sfCallee(cx.fn.Info(), cl)
+			return strings.Contains(nm, ".calc") || strings.Contains(nm, ".Calc")
+		}
+		return sfAllLeafs(sfLeafs(d.ctx, d.arg(0), d.site, 4, stopB), func(l sfLeaf) bool {
+			if l.e == nil {
+				return false
+			}
+			kc, ok := ast.Unparen(l.e).(*ast.CallExpr)
+			if !ok || len(kc.Args) == 0 || !stopB(l.ctx, kc) {
+				return false
+			}
+			for i, a := range kc.Args {
+				if sfRootParam(l.ctx, a) != first+i {
+					return false
+				}
+			}
+			return true
+		})
+	}
+	dbCalls := func(f *engine.Fn, op string) []sfDS {
+		return sfDeepCalls(f, 2, nil, func(cx *sfCtx, st *engine.Site) bool { return st.CalleeName() == c41DBI+op })
+	}
 	for _, nm := range []string{"LoadBlockMeta", "LoadBlockCommit", "LoadSeenCommit", "LoadBlockPart"} {
 		f := c.MustFunc(c41BS + ".(*BlockStore)." + nm)
 		if f == nil {
 			continue
 		}
-		for _, s := range f.CallsTo(c41DBI + "Get") {
-			kc, ok := ast.Unparen(s.Call.Args[0]).(*ast.CallExpr)
-			ok = ok && len(kc.Args) >= 1
-			if ok {
-				for i, a := range kc.Args {
-					ok = ok && sfIsParam(f, a, i)
-				}
-			}
+		gets := dbCalls(f, "Get")
+		if len(gets) == 0 {
+			c.Undecided("height-arg", f.Name, "no db.Get found in the loader or its helpers")
+		}
+		for _, d := range gets {
 			n++
-			c.Check("height-arg", f.Name+" reads under its own parameters", s.Pos(), ok, "")
+			c.Check("height-arg", f.Name+" reads under its own parameters", d.where(), keyUnderParams(d, 0), "")
 		}
 	}
 	if f := c.MustFunc(c41BS + ".(*BlockStore).LoadBlock"); f != nil {
@@ -519,10 +560,9 @@ func c41HeightArgs(c *engine.Ctx, p *engine.Prog) {
 		if f == nil {
 			continue
 		}
-		for _, s := range f.CallsTo(c41DBI + "Get") {
-			kc, ok := ast.Unparen(s.Call.Args[0]).(*ast.CallExpr)
+		for _, d := range dbCalls(f, "Get") {
 			n++
-			c.Check("height-arg", f.Name+" reads under its height parameter", s.Pos(), ok && len(kc.Args) == 1 && sfIsParam(f, kc.Args[0], 1), "")
+			c.Check("height-arg", f.Name+" reads under its height parameter", d.where(), keyUnderParams(d, 1), "")
 		}
 	}
 	for _, nm := range []string{"saveValidatorsInfo", "saveConsensusParamsInfo", "SaveABCIResponses"} {
@@ -530,10 +570,9 @@ func c41HeightArgs(c *engine.Ctx, p *engine.Prog) {
 		if f == nil {
 			continue
 		}
-		for _, s := range f.CallsTo(c41DBI + "Set") {
-			kc, ok := ast.Unparen(s.Call.Args[0]).(*ast.CallExpr)
+		for _, d := range dbCalls(f, "Set") {
 			n++
-			c.Check("height-arg", f.Name+" writes under its height parameter", s.Pos(), ok && len(kc.Args) == 1 && sfIsParam(f, kc.Args[0], 1), "")
+			c.Check("height-arg", f.Name+" writes under its height parameter", d.where(), keyUnderParams(d, 1), "")
 		}
 	}
 	c.Floor("height-arg", n, 18)
@@ -703,64 +742,98 @@ func c41SaveGuards(c *engine.Ctx, p *engine.Prog) {
 func c41Checkpoint(c *engine.Ctx, p *engine.Prog) {
 	n := 0
 	interval := p.Object(c41ST + ".valSetCheckpointInterval")
-	usesInterval := func(f *engine.Fn, e ast.Expr, lhs func(ast.Expr) bool) bool {
+	// x % valSetCheckpointInterval with x = root parameter `param`
+	modInterval := func(cx *sfCtx, e ast.Expr, param int) bool {
 		b, ok := ast.Unparen(e).(*ast.BinaryExpr)
-		return ok && b.Op == token.REM && lhs(b.X) && engine.ObjOf(f.Info(), b.Y) == interval && interval != nil
+		return ok && b.Op == token.REM && sfRootParam(cx, b.X) == param && engine.ObjOf(cx.fn.Info(), b.Y) == interval && interval != nil
+	}
+	paramsCmp := func(cx *sfCtx, e ast.Expr, op token.Token, p1, p2 int) bool {
+		a, b, o, isC := sfCmp(e)
+		if !isC || o != op {
+			return false
+		}
+		x, y := sfRootParam(cx, a), sfRootParam(cx, b)
+		return (x == p1 && y == p2) || (x == p2 && y == p1)
+	}
+	isZeroCmp := func(cx *sfCtx, e ast.Expr, op token.Token, inner func(*sfCtx, ast.Expr) bool) bool {
+		a, b, o, isC := sfCmp(e)
+		if !isC || o != op {
+			return false
+		}
+		if k, isK := sfConstInt(cx.fn.Info(), b); isK && k == 0 {
+			return inner(cx, a)
+		}
+		if k, isK := sfConstInt(cx.fn.Info(), a); isK && k == 0 {
+			return inner(cx, b)
+		}
+		return false
 	}
 	if f := c.MustFunc(c41ST + ".saveValidatorsInfo"); f != nil {
-		info := f.Info()
 		vsF := p.Field(c41ST + ".ValidatorsInfo.ValidatorSet")
 		lhcF := p.Field(c41ST + ".ValidatorsInfo.LastHeightChanged")
 		ok, found := false, 0
-		engine.InspectBody(f, func(x ast.Node) {
-			as, isAs := x.(*ast.AssignStmt)
-			if !isAs || len(as.Lhs) != 1 || !sfFieldSel(info, as.Lhs[0], vsF) {
-				return
-			}
-			found++
-			st := f.SiteOf(as)
-			if st == nil || !sfIsParam(f, as.Rhs[0], 3) {
-				return
-			}
-			for _, g := range f.Graph().Gates(st) {
-				if !g.OnTrue {
-					continue
+		for _, cx := range sfCtxs(sfRoot(f), 2, nil) {
+			info := cx.fn.Info()
+			cx := cx
+			engine.InspectBody(cx.fn, func(x ast.Node) {
+				as, isAs := x.(*ast.AssignStmt)
+				if !isAs || len(as.Lhs) != 1 || !sfFieldSel(info, as.Lhs[0], vsF) {
+					return
 				}
-				dj := engine.Conjuncts(g.Cond, token.LOR)
-				if len(dj) != 2 {
-					continue
+				found++
+				st := cx.fn.SiteOf(as)
+				if st == nil || sfRootParam(cx, as.Rhs[0]) != 3 {
+					return
 				}
-				eq, cp := false, false
-				for _, d := range dj {
-					if id, isId := ast.Unparen(d).(*ast.Ident); isId {
-						if def := sfSingleDef(f, info.ObjectOf(id)); def != nil {
-							d = def // hoisted boolean
-						}
-					}
-					a, b, op, isC := sfCmp(d)
-					if !isC || op != token.EQL {
+				// the store happens exactly when  height == lastHeightChanged || height%interval == 0
+				for _, ft := range sfFactsAt(cx, st) {
+					b, isB := ast.Unparen(ft.e).(*ast.BinaryExpr)
+					if !isB {
 						continue
 					}
-					if (sfIsParam(f, a, 1) && sfIsParam(f, b, 2)) || (sfIsParam(f, a, 2) && sfIsParam(f, b, 1)) {
-						eq = true
+					var parts []ast.Expr
+					eqOp := token.EQL
+					switch {
+					case ft.val && b.Op == token.LOR:
+						parts = engine.Conjuncts(b, token.LOR)
+					case !ft.val && b.Op == token.LAND:
+						parts, eqOp = engine.Conjuncts(b, token.LAND), token.NEQ
+					default:
+						continue
 					}
-					if sfIsIntLit(b, "0") && usesInterval(f, a, func(e ast.Expr) bool { return sfIsParam(f, e, 1) }) {
-						cp = true
+					if len(parts) != 2 {
+						continue
+					}
+					eq, cp := false, false
+					for _, d := range parts {
+						dc, de := sfBoolResolve(ft.ctx, d)
+						if paramsCmp(dc, de, eqOp, 1, 2) {
+							eq = true
+						}
+						if isZeroCmp(dc, de, eqOp, func(c2 *sfCtx, y ast.Expr) bool { return modInterval(c2, y, 1) }) {
+							cp = true
+						}
+					}
+					if eq && cp {
+						ok = true
 					}
 				}
-				ok = eq && cp
-			}
-		})
+			})
+		}
 		n++
 		c.Check("checkpoint", f.Name+" stores the full set exactly at change or checkpoint heights", f.Pos(), ok && found == 1,
 			"valInfo.ValidatorSet = valSet must be gated by `height == lastHeightChanged || height%valSetCheckpointInterval == 0`")
 		// LastHeightChanged recorded
 		rec := false
+		info := f.Info()
 		ast.Inspect(f.Body, func(x ast.Node) bool {
 			if kv, isKV := x.(*ast.KeyValueExpr); isKV {
 				if id, isId := kv.Key.(*ast.Ident); isId && info.Uses[id] == lhcF && sfIsParam(f, kv.Value, 2) {
 					rec = true
 				}
+			}
+			if as, isAs := x.(*ast.AssignStmt); isAs && len(as.Lhs) == 1 && sfFieldSel(info, as.Lhs[0], lhcF) && sfIsParam(f, as.Rhs[0], 2) {
+				rec = true
 			}
 			return true
 		})
@@ -768,20 +841,20 @@ func c41Checkpoint(c *engine.Ctx, p *engine.Prog) {
 		c.Check("checkpoint", f.Name+" records LastHeightChanged", f.Pos(), rec, "")
 	}
 	if f := c.MustFunc(c41ST + ".lastStoredHeightFor"); f != nil {
-		info := f.Info()
+		root := sfRoot(f)
 		ok := false
 		for _, r := range sfReturns(f) {
-			cl, isC := sfIsCallTo(info, r.Results[0], "builtin.max")
+			cl, isC := sfIsCallTo(f.Info(), r.Results[0], "builtin.max")
 			if !isC || len(cl.Args) != 2 {
 				continue
 			}
 			isCk := func(e ast.Expr) bool {
-				return sfDerives(f, e, func(x ast.Expr) bool {
+				return sfOperandIs(root, e, func(c2 *sfCtx, x ast.Expr) bool {
 					b, isB := ast.Unparen(x).(*ast.BinaryExpr)
-					return isB && b.Op == token.SUB && sfIsParam(f, b.X, 0) && usesInterval(f, b.Y, func(y ast.Expr) bool { return sfIsParam(f, y, 0) })
-				}, 2)
+					return isB && b.Op == token.SUB && sfRootParam(c2, b.X) == 0 && modInterval(c2, b.Y, 0)
+				})
 			}
-			if (isCk(cl.Args[0]) && sfIsParam(f, cl.Args[1], 1)) || (isCk(cl.Args[1]) && sfIsParam(f, cl.Args[0], 1)) {
+			if (isCk(cl.Args[0]) && sfRootParam(root, cl.Args[1]) == 1) || (isCk(cl.Args[1]) && sfRootParam(root, cl.Args[0]) == 1) {
 				ok = true
 			}
 		}
@@ -789,67 +862,115 @@ func c41Checkpoint(c *engine.Ctx, p *engine.Prog) {
 		c.Check("checkpoint", f.Name+" = max(height - height%interval, lastHeightChanged)", f.Pos(), ok, "the loader must look where the saver stored the latest full set (same interval constant)")
 	}
 	if f := c.MustFunc(c41ST + ".LoadValidators"); f != nil {
-		info := f.Info()
 		lhcF := p.Field(c41ST + ".ValidatorsInfo.LastHeightChanged")
 		vsF := p.Field(c41ST + ".ValidatorsInfo.ValidatorSet")
-		loads := f.CallsTo(c41ST + ".loadValidatorsInfo")
-		lsh := f.CallsTo(c41ST + ".lastStoredHeightFor")
-		ok := len(loads) >= 2 && len(lsh) == 1
-		var lshObj types.Object
-		if ok {
-			a := lsh[0].Call.Args
-			ok = sfIsParam(f, a[0], 1) && sfFieldSel(info, a[1], lhcF)
-			if as, isAs := lsh[0].Top.(*ast.AssignStmt); isAs {
-				lshObj = engine.ObjOf(info, as.Lhs[0])
+		const lshFor = c41ST + ".lastStoredHeightFor"
+		stopL := func(cx *sfCtx, cl *ast.CallExpr) bool { return sfCallee(cx.fn.Info(), cl) == lshFor }
+		// isStoredHeight: lastStoredHeightFor(<height>, <….LastHeightChanged>)
+		isStoredHeight := func(l sfLeaf) bool {
+			if l.e == nil {
+				return false
 			}
-			ok = ok && lshObj != nil && sfIsParam(f, loads[0].Call.Args[1], 1) && engine.ObjOf(info, loads[1].Call.Args[1]) == lshObj
-			// the indirection happens exactly when the stored entry has no set
-			ok = ok && sfHolds(f, loads[1], true, func(e ast.Expr) bool {
-				a, b, op, isC := sfCmp(e)
-				return isC && op == token.EQL && isNil(b) && sfFieldSel(info, a, vsF)
-			})
+			cl, ok := sfIsCallTo(l.ctx.fn.Info(), l.e, lshFor)
+			return ok && len(cl.Args) == 2 && sfRootParam(l.ctx, cl.Args[0]) == 1 && sfOperandIs(l.ctx, cl.Args[1], sfIsField(lhcF))
+		}
+		isLHC := func(l sfLeaf) bool { return l.e != nil && sfFieldSel(l.ctx.fn.Info(), l.e, lhcF) }
+		setIsNil := func(facts []sfFact) bool {
+			m := func(op token.Token) func(*sfCtx, ast.Expr) bool {
+				return func(cx *sfCtx, e ast.Expr) bool {
+					a, b, o, isC := sfCmp(e)
+					return isC && o == op && isNil(b) && sfOperandIs(cx, a, sfIsField(vsF))
+				}
+			}
+			return sfKnown(facts, true, m(token.EQL)) || sfKnown(facts, false, m(token.NEQ))
+		}
+		loads := sfDeepCallsTo(f, 3, c41ST+".loadValidatorsInfo")
+		direct, indirect := 0, 0
+		for _, d := range loads {
+			if d.rootParam(1) == 1 {
+				direct++
+				continue
+			}
+			leaves := sfLeafs(d.ctx, d.arg(1), d.site, 5, stopL)
+			if sfAllLeafs(leaves, func(l sfLeaf) bool { return isStoredHeight(l) }) && setIsNil(d.facts()) {
+				indirect++
+			}
 		}
 		n++
-		c.Check("checkpoint", f.Name+" follows the checkpoint/LastHeightChanged pointer when the set is absent", f.Pos(), ok, "")
-		inc := f.CallsTo("tm2/pkg/bft/types.(*ValidatorSet).IncrementProposerPriority")
-		ok = len(inc) == 1 && lshObj != nil
-		if ok {
-			ok = false
-			ast.Inspect(inc[0].Call.Args[0], func(x ast.Node) bool {
-				if b, isB := x.(*ast.BinaryExpr); isB && b.Op == token.SUB && sfIsParam(f, b.X, 1) && engine.ObjOf(info, b.Y) == lshObj {
-					ok = true
+		c.Check("checkpoint", f.Name+" follows the checkpoint/LastHeightChanged pointer when the set is absent", f.Pos(), direct >= 1 && indirect >= 1,
+			"when the entry at `height` holds no set, the set must be loaded at lastStoredHeightFor(height, LastHeightChanged)")
+		inc := sfDeepCallsTo(f, 3, "tm2/pkg/bft/types.(*ValidatorSet).IncrementProposerPriority")
+		ok := len(inc) >= 1
+		for _, d := range inc {
+			good := false
+			ast.Inspect(d.arg(0), func(x ast.Node) bool {
+				b, isB := x.(*ast.BinaryExpr)
+				if !isB || b.Op != token.SUB || sfRootParam(d.ctx, b.X) != 1 {
+					return true
+				}
+				leaves := sfLeafs(d.ctx, b.Y, d.site, 6, stopL)
+				stored := false
+				all := sfAllLeafs(leaves, func(l sfLeaf) bool {
+					if isStoredHeight(l) {
+						stored = true
+						return true
+					}
+					return isLHC(l) // legacy fallback: the set loaded at LastHeightChanged itself
+				})
+				if all && stored {
+					good = true
 				}
 				return true
 			})
+			ok = ok && good && setIsNil(d.facts())
 		}
 		n++
 		c.Check("checkpoint", f.Name+" advances proposer priority by height - storedHeight", f.Pos(), ok, "the set loaded from an earlier height must be advanced by exactly the height difference")
 	}
 	if f := c.MustFunc(c41ST + ".saveConsensusParamsInfo"); f != nil {
-		info := f.Info()
 		cpF := p.Field(c41ST + ".ConsensusParamsInfo.ConsensusParams")
 		ok := false
-		engine.InspectBody(f, func(x ast.Node) {
-			as, isAs := x.(*ast.AssignStmt)
-			if !isAs || len(as.Lhs) != 1 || !sfFieldSel(info, as.Lhs[0], cpF) || !sfIsParam(f, as.Rhs[0], 3) {
-				return
-			}
-			st := f.SiteOf(as)
-			ok = st != nil && len(f.Graph().Gates(st)) == 1 && sfHolds(f, st, true, func(e ast.Expr) bool {
-				a, b, op, isC := sfCmp(e)
-				return isC && op == token.EQL && ((sfIsParam(f, a, 1) && sfIsParam(f, b, 2)) || (sfIsParam(f, a, 2) && sfIsParam(f, b, 1)))
+		for _, cx := range sfCtxs(sfRoot(f), 2, nil) {
+			info := cx.fn.Info()
+			cx := cx
+			engine.InspectBody(cx.fn, func(x ast.Node) {
+				as, isAs := x.(*ast.AssignStmt)
+				if !isAs || len(as.Lhs) != 1 || !sfFieldSel(info, as.Lhs[0], cpF) || sfRootParam(cx, as.Rhs[0]) != 3 {
+					return
+				}
+				st := cx.fn.SiteOf(as)
+				if st == nil {
+					return
+				}
+				facts := sfAtomicFacts(sfFactsAt(cx, st))
+				good := len(facts) >= 1
+				for _, ft := range facts {
+					if id, isId := ast.Unparen(ft.e).(*ast.Ident); isId && sfSingleDef(ft.ctx.fn, ft.ctx.fn.Info().ObjectOf(id)) != nil {
+						continue
+					}
+					if !(paramsCmp(ft.ctx, ft.e, token.EQL, 1, 2) && ft.val) && !(paramsCmp(ft.ctx, ft.e, token.NEQ, 1, 2) && !ft.val) {
+						good = false
+					}
+				}
+				ok = good
 			})
-		})
+		}
 		n++
 		c.Check("checkpoint", f.Name+" stores full params exactly at the change height", f.Pos(), ok, "")
 	}
 	if f := c.MustFunc(c41ST + ".LoadConsensusParams"); f != nil {
-		info := f.Info()
 		lhcF := p.Field(c41ST + ".ConsensusParamsInfo.LastHeightChanged")
-		loads := f.CallsTo(c41ST + ".loadConsensusParamsInfo")
-		ok := len(loads) == 2 && sfIsParam(f, loads[0].Call.Args[1], 1) && sfFieldSel(info, loads[1].Call.Args[1], lhcF)
+		direct, indirect := 0, 0
+		for _, d := range sfDeepCallsTo(f, 3, c41ST+".loadConsensusParamsInfo") {
+			switch {
+			case d.rootParam(1) == 1:
+				direct++
+			case sfOperandIs(d.ctx, d.arg(1), sfIsField(lhcF)):
+				indirect++
+			}
+		}
 		n++
-		c.Check("checkpoint", f.Name+" follows LastHeightChanged when params are absent", f.Pos(), ok, "")
+		c.Check("checkpoint", f.Name+" follows LastHeightChanged when params are absent", f.Pos(), direct >= 1 && indirect >= 1, "")
 	}
 	c.Floor("checkpoint", n, 7)
 }
@@ -859,73 +980,101 @@ func c41SaveState(c *engine.Ctx, p *engine.Prog) {
 	if f == nil {
 		return
 	}
-	info := f.Info()
 	n := 0
-	var nh types.Object
-	engine.InspectBody(f, func(x ast.Node) {
-		as, ok := x.(*ast.AssignStmt)
-		if !ok || as.Tok != token.DEFINE || len(as.Lhs) != 1 {
-			return
+	fieldNamed := func(name string) func(*sfCtx, ast.Expr) bool {
+		return func(cx *sfCtx, x ast.Expr) bool {
+			fld := sfSelField(cx.fn.Info(), x)
+			return fld != nil && fld.Name() == name
 		}
-		if b, isB := ast.Unparen(as.Rhs[0]).(*ast.BinaryExpr); isB && b.Op == token.ADD && sfIsIntLit(b.Y, "1") {
-			if fld := sfSelField(info, b.X); fld != nil && fld.Name() == "LastBlockHeight" {
-				nh = engine.ObjOf(info, as.Lhs[0])
+	}
+	// nextHeight = state.LastBlockHeight + 1 (through locals / helper parameters)
+	isNH := func(cx *sfCtx, e ast.Expr) bool {
+		return sfOperandIs(cx, e, func(c2 *sfCtx, x ast.Expr) bool {
+			b, ok := ast.Unparen(x).(*ast.BinaryExpr)
+			if !ok || b.Op != token.ADD {
+				return false
+			}
+			k, isK := sfConstInt(c2.fn.Info(), b.Y)
+			return isK && k == 1 && sfOperandIs(c2, b.X, fieldNamed("LastBlockHeight"))
+		})
+	}
+	isNHp1 := func(cx *sfCtx, e ast.Expr) bool {
+		return sfOperandIs(cx, e, func(c2 *sfCtx, x ast.Expr) bool {
+			b, ok := ast.Unparen(x).(*ast.BinaryExpr)
+			if !ok || b.Op != token.ADD || !isNH(c2, b.X) {
+				return false
+			}
+			k, isK := sfConstInt(c2.fn.Info(), b.Y)
+			return isK && k == 1
+		})
+	}
+	isField := func(cx *sfCtx, e ast.Expr, name string) bool { return sfOperandIs(cx, e, fieldNamed(name)) }
+	// first block: nextHeight == state.InitialHeight
+	firstBlock := func(op token.Token) func(*sfCtx, ast.Expr) bool {
+		return func(cx *sfCtx, e ast.Expr) bool {
+			a, b, o, ok := sfCmp(e)
+			if !ok || o != op {
+				return false
+			}
+			return (isNH(cx, a) && isField(cx, b, "InitialHeight")) || (isNH(cx, b) && isField(cx, a, "InitialHeight"))
+		}
+	}
+	isFirst := func(facts []sfFact) int {
+		switch {
+		case sfKnown(facts, true, firstBlock(token.EQL)) || sfKnown(facts, false, firstBlock(token.NEQ)):
+			return 1
+		case sfKnown(facts, false, firstBlock(token.EQL)) || sfKnown(facts, true, firstBlock(token.NEQ)):
+			return -1
+		}
+		return 0
+	}
+	// A call saveX(db, height, changeHeight, value) is judged per possible origin of its
+	// changeHeight argument, so that one call with a selected argument equals two calls in branches.
+	nextVals, firstVals, firstParams, laterParams, bad := 0, 0, 0, 0, ""
+	for _, d := range sfDeepCallsTo(f, 2, c41ST+".saveValidatorsInfo") {
+		base := d.facts()
+		for _, l := range sfLeafs(d.ctx, d.arg(2), d.site, 5, nil) {
+			facts := append(append([]sfFact{}, base...), l.facts...)
+			switch {
+			case l.e != nil && isNHp1(d.ctx, d.arg(1)) && fieldNamed("LastHeightValidatorsChanged")(l.ctx, l.e) && isField(d.ctx, d.arg(3), "NextValidators") && isFirst(facts) == 0:
+				nextVals++
+			case l.e != nil && isNH(d.ctx, d.arg(1)) && isNH(l.ctx, l.e) && isField(d.ctx, d.arg(3), "Validators") && isFirst(facts) == 1:
+				firstVals++
+			default:
+				bad = "saveValidatorsInfo(" + engine.ExprString(d.arg(1)) + ", " + c22Expr(l.e) + ", " + engine.ExprString(d.arg(3)) + ")"
 			}
 		}
-	})
-	n++
-	c.Check("save-state", f.Name+" nextHeight = LastBlockHeight+1", f.Pos(), nh != nil, "")
-	isNH := func(e ast.Expr) bool { return nh != nil && engine.ObjOf(info, e) == nh }
-	isNHp1 := func(e ast.Expr) bool {
-		b, ok := ast.Unparen(e).(*ast.BinaryExpr)
-		return ok && b.Op == token.ADD && isNH(b.X) && sfIsIntLit(b.Y, "1")
 	}
-	fieldIs := func(e ast.Expr, name string) bool {
-		fld := sfSelField(info, e)
-		return fld != nil && fld.Name() == name
-	}
-	firstBlock := func(e ast.Expr) bool {
-		a, b, op, ok := sfCmp(e)
-		return ok && op == token.EQL && isNH(a) && fieldIs(b, "InitialHeight")
-	}
-	nextVals, firstVals, firstParams, nextParams := 0, 0, 0, 0
-	for _, s := range f.CallsTo(c41ST + ".saveValidatorsInfo") {
-		a := s.Call.Args
-		switch {
-		case isNHp1(a[1]) && fieldIs(a[2], "LastHeightValidatorsChanged") && fieldIs(a[3], "NextValidators") && len(f.Graph().Gates(s)) == 1:
-			// (the single gate is the invalid-range panic guard)
-			nextVals++
-		case isNH(a[1]) && isNH(a[2]) && fieldIs(a[3], "Validators") && sfHolds(f, s, true, firstBlock):
-			firstVals++
-		default:
-			n++
-			c.Check("save-state", f.Name+" unexpected saveValidatorsInfo call", s.Pos(), false, "arguments do not match (nextHeight+1, LastHeightValidatorsChanged, NextValidators) or the first-block form")
-		}
-	}
-	for _, s := range f.CallsTo(c41ST + ".saveConsensusParamsInfo") {
-		a := s.Call.Args
-		switch {
-		case isNH(a[1]) && isNH(a[2]) && fieldIs(a[3], "ConsensusParams") && sfHolds(f, s, true, firstBlock):
-			firstParams++
-		case isNH(a[1]) && fieldIs(a[2], "LastHeightConsensusParamsChanged") && fieldIs(a[3], "ConsensusParams") && sfHolds(f, s, false, firstBlock):
-			nextParams++
-		default:
-			n++
-			c.Check("save-state", f.Name+" unexpected saveConsensusParamsInfo call", s.Pos(), false, "")
+	for _, d := range sfDeepCallsTo(f, 2, c41ST+".saveConsensusParamsInfo") {
+		base := d.facts()
+		for _, l := range sfLeafs(d.ctx, d.arg(2), d.site, 5, nil) {
+			facts := append(append([]sfFact{}, base...), l.facts...)
+			switch {
+			case l.e != nil && isNH(d.ctx, d.arg(1)) && isNH(l.ctx, l.e) && isField(d.ctx, d.arg(3), "ConsensusParams") && isFirst(facts) == 1:
+				firstParams++
+			case l.e != nil && isNH(d.ctx, d.arg(1)) && fieldNamed("LastHeightConsensusParamsChanged")(l.ctx, l.e) && isField(d.ctx, d.arg(3), "ConsensusParams") && isFirst(facts) != 1:
+				laterParams++
+			default:
+				bad = "saveConsensusParamsInfo(" + engine.ExprString(d.arg(1)) + ", " + c22Expr(l.e) + ", " + engine.ExprString(d.arg(3)) + ")"
+			}
 		}
 	}
 	n++
-	c.Check("save-state", f.Name+" next validators under nextHeight+1", f.Pos(), nextVals == 1, "validator changes take effect with one block delay: NextValidators belongs to nextHeight+1")
+	c.Check("save-state", f.Name+" only the expected validator/params records are written", f.Pos(), bad == "", "unexpected: "+bad)
 	n++
-	c.Check("save-state", f.Name+" first block stores full validators and params at nextHeight", f.Pos(), firstVals == 1 && firstParams == 1, "")
+	c.Check("save-state", f.Name+" next validators under nextHeight+1", f.Pos(), nextVals >= 1, "validator changes take effect with one block delay: NextValidators (with LastHeightValidatorsChanged) belongs to nextHeight+1, on every block")
 	n++
-	c.Check("save-state", f.Name+" later blocks store params (or pointer) at nextHeight", f.Pos(), nextParams == 1, "")
+	c.Check("save-state", f.Name+" first block stores full validators and params at nextHeight", f.Pos(), firstVals >= 1 && firstParams >= 1, "")
+	n++
+	c.Check("save-state", f.Name+" later blocks store params (or pointer) at nextHeight", f.Pos(), laterParams >= 1, "")
 	// the state itself is written last, synced
-	ss := f.CallsTo(c41DBI + "SetSync")
+	ss := sfDeepCalls(f, 2, nil, func(cx *sfCtx, st *engine.Site) bool {
+		return st.CalleeName() == c41DBI+"SetSync" && sfRootParam(cx, st.Call.Args[0]) == 2
+	})
 	ok := len(ss) == 1
 	if ok {
-		for _, s := range f.CallsTo(c41ST+".saveValidatorsInfo", c41ST+".saveConsensusParamsInfo") {
-			ok = ok && f.Graph().ReachableAfter(s, ss[0]) && !f.Graph().ReachableAfter(ss[0], s)
+		for _, d := range sfDeepCallsTo(f, 2, c41ST+".saveValidatorsInfo", c41ST+".saveConsensusParamsInfo") {
+			ok = ok && sfReachAfterDS(d, ss[0]) && !sfReachAfterDS(ss[0], d)
 		}
 	}
 	n++
